@@ -1,0 +1,117 @@
+//go:build verif
+
+package jet
+
+// Contracts for set.go, cache.go and loader.go (C15, C16, C19), checked by /verif/jetvc.
+// Comments only; compiled only under the build tag "verif".
+
+// Abstract state: CM[c][p] is what cache c returns for path p; NL counts calls into the loader.
+//@ ghost CM (Array Int (Array Str Int))
+//@ ghost NL int
+
+//@ func (Cache).Get
+//@   trusted user-supplied or default cache: behaves like a map
+//@   params c, templatePath
+//@   nopanic
+//@   ensures result == CM[refof(c)][templatePath]
+//@ func (Cache).Put
+//@   trusted user-supplied or default cache: behaves like a map
+//@   params c, templatePath, t
+//@   modifies ghost CM
+//@   nopanic
+//@   ensures CM == store(old(CM), refof(c), store(old(CM)[refof(c)], templatePath, t))
+//@ func (Loader).Exists
+//@   trusted user-supplied loader
+//@   params l, templatePath
+//@   modifies ghost NL
+//@   nopanic
+//@   ensures NL == old(NL) + 1
+//@ func (Loader).Open
+//@   trusted user-supplied loader
+//@   params l, templatePath
+//@   modifies ghost NL
+//@   nopanic
+//@   ensures NL == old(NL) + 1 && (result1 == nil ==> result0 != nil)
+//@ func (io.ReadCloser).Close
+//@   trusted user-supplied reader
+//@   nopanic
+//@ func ioutil.ReadAll
+//@   trusted io library
+//@   nopanic
+
+//@ pred SetOK(s *Set) := s != nil && s.loader != nil && s.cache != nil && len(s.extensions) > 0 && forall(i, 0, len(s.extensions), GoodExt(s.extensions[i]))
+
+//@ func (*Set).GetTemplate
+//@   props C15 C16
+//@   requires SetOK(s)
+//@   modifies ghost CM, ghost NL
+//@   nopanic
+//@   ensures err == nil ==> t != nil
+//@   callsite (*Set).getSiblingTemplate 0 requires [gettemplate-resolves-against-root] {C15} siblingPath == "/" && cacheAfterParsing && templatePath == caller.templatePath
+
+//@ func (*Set).getSiblingTemplate
+//@   props C15 C16
+//@   requires SetOK(s) && Canon(siblingPath)
+//@   modifies ghost CM, ghost NL
+//@   nopanic
+//@   ensures err == nil ==> t != nil
+//@   callsite (*Set).getTemplate 0 requires [loader-paths-are-canonical] {C15} Canon(templatePath) && cacheAfterParsing == caller.cacheAfterParsing
+//@   callsite (*Set).getTemplate 0 requires [relative-names-resolve-against-the-referring-directory] {C15} ite(IsAbsP(caller.templatePath), templatePath == CleanP(caller.templatePath), templatePath == JoinP2(DirP(caller.siblingPath), caller.templatePath))
+
+//@ func (*Set).getTemplate
+//@   props C15 C16
+//@   requires SetOK(s) && Canon(templatePath)
+//@   modifies ghost CM, ghost NL
+//@   nopanic
+//@   ensures err == nil ==> t != nil
+//@   check [cache-hit-returns-identical-template-without-loader] {C16} !s.developmentMode && lastret("(*Set).getTemplateFromCache", 1) && visits("(*Set).getTemplateFromCache", 0) == 1 ==> err == nil && t == lastret("(*Set).getTemplateFromCache", 0) && NL == old(NL) && CM == old(CM)
+//@   callsite (*Set).getTemplateFromCache 0 requires [dev-mode-bypasses-the-cache] {C16} !s.developmentMode && templatePath == caller.templatePath
+//@   callsite (*Set).getTemplateFromLoader 0 requires {C16,C15} templatePath == caller.templatePath && cacheAfterParsing == caller.cacheAfterParsing
+//@   callsite (Cache).Put 0 requires [only-successful-loads-are-cached] {C16} lastret("(*Set).getTemplateFromLoader", 1) == nil && caller.cacheAfterParsing && !s.developmentMode && t == lastret("(*Set).getTemplateFromLoader", 0) && c == s.cache
+//@   callsite (Cache).Put 0 requires [cached-under-a-probed-name] {C16} exists(j, 0, len(s.extensions), templatePath == caller.templatePath + s.extensions[j])
+//@   callsite (Cache).Put 0 requires [cache-paths-are-canonical] {C15} Canon(templatePath)
+
+//@ func (*Set).getTemplateFromCache
+//@   props C15 C16
+//@   requires SetOK(s) && Canon(templatePath)
+//@   nopanic
+//@   loop 0 invariant -1 <= rangeindex && forall(i, 0, rangeindex + 1, CM[refof(s.cache)][templatePath + s.extensions[i]] == nil)
+//@   ensures [first-cached-extension-wins] {C16} ok ==> t != nil && exists(j, 0, len(s.extensions), t == CM[refof(s.cache)][templatePath + s.extensions[j]] && forall(i, 0, j, CM[refof(s.cache)][templatePath + s.extensions[i]] == nil))
+//@   ensures [miss-means-no-extension-cached] {C16} !ok ==> t == nil && forall(j, 0, len(s.extensions), CM[refof(s.cache)][templatePath + s.extensions[j]] == nil)
+//@   callsite (Cache).Get 0 requires [cache-paths-are-canonical] {C15} Canon(templatePath) && c == s.cache
+
+//@ func (*Set).getTemplateFromLoader
+//@   props C15 C16
+//@   requires SetOK(s) && Canon(templatePath)
+//@   modifies ghost CM, ghost NL
+//@   nopanic
+//@   loop 0 invariant -1 <= rangeindex
+//@   ensures err == nil ==> t != nil && Canon(t.Name) && exists(j, 0, len(s.extensions), t.Name == templatePath + s.extensions[j])
+//@   callsite (Loader).Exists 0 requires [loader-paths-are-canonical] {C15} Canon(templatePath) && l == s.loader && templatePath == caller.templatePath + s.extensions[caller.rangeindex + 1]
+//@   callsite (*Set).loadFromFile 0 requires [first-existing-extension-wins] {C16} lastret("(Loader).Exists", 0) && templatePath == caller.templatePath + s.extensions[caller.rangeindex + 1] && cacheAfterParsing == caller.cacheAfterParsing
+
+//@ func (*Set).loadFromFile
+//@   props C15 C16
+//@   requires SetOK(s) && Canon(templatePath)
+//@   modifies ghost CM, ghost NL
+//@   nopanic
+//@   ensures err == nil ==> template != nil && template.Name == templatePath
+//@   callsite (Loader).Open 0 requires [loader-paths-are-canonical] {C15} Canon(templatePath) && l == s.loader && templatePath == caller.templatePath
+//@   callsite (*Set).parse 0 requires [failed-open-or-read-parses-nothing] {C16} lastret("(Loader).Open", 1) == nil && lastret("ioutil.ReadAll", 1) == nil && name == caller.templatePath && cacheAfterParsing == caller.cacheAfterParsing
+//@   callsite (io.ReadCloser).Close count 1
+
+//@ func (*Set).parse
+//@   props C15 C16 C08
+//@   trusted verified with the parser contracts (C02); here only its interface towards the Set
+//@   requires [set-ok] SetOK(s)
+//@   requires [canonical-name] Canon(name)
+//@   modifies ghost CM, ghost NL
+//@   nopanic
+//@   ensures err == nil ==> t != nil && t.Name == name
+
+//@ func (*Set).Parse
+//@   props C15 C16
+//@   requires SetOK(s)
+//@   modifies ghost CM, ghost NL
+//@   nopanic
+//@   callsite (*Set).parse 0 requires [parse-cleans-its-path-and-never-caches] {C15,C16} Canon(name) && !cacheAfterParsing && name == JoinP2("/", caller.templatePath)
